@@ -745,6 +745,17 @@ class _Call(object):
         finally:
             if k.sched_stack and k.sched_stack[-1] is self.sched:
                 k.sched_stack.pop()
+            # every worker of the call is dead and joined: release the sentinel pipe multiprocessing keeps per
+            # Process object (the objects themselves stay referenced by the scheduler for the evidence, and a grid
+            # of a few hundred executions would otherwise run the process past 1024 descriptors)
+            for p in self.sched.procs:
+                if p._sim_state == 'exited':
+                    fin = getattr(getattr(p, '_popen', None), 'finalizer', None)
+                    if fin is not None:
+                        try:
+                            fin()
+                        except Exception:
+                            pass
         self.sched.parent_events = k.events[self.ev0:]
         return False
 
